@@ -135,14 +135,14 @@ def bounded_roundtrip(seed, n_archives):
             out.dump_json(siteinfo=siteinfo.get_siteinfo("en"))
             written = {}
             newest = {}
-            revid = 100
+            revid = rnd.choice([1, 7, 80, 95])     # revision ids of different digit counts (9/10, 97/104, ...)
             order = []
             for _ in range(rnd.randint(1, 6)):
                 t = rnd.choice(titles)
                 k = rnd.randint(1, 3)
                 revs = []
                 for _ in range(k):
-                    revid += rnd.randint(1, 5)
+                    revid += rnd.choice([1, 2, 3, 7, 11, 60])
                     revs.append(revid)
                 rnd.shuffle(revs)
                 for r in revs:
